@@ -92,7 +92,7 @@ int c_var2h(int nvalvar, int nvalh,
         }
 
         /* Start and end of integration */
-        start = (double)(hstartsec+i*nbsec_per_period);
+        start = (double)hstartsec+(double)i*nbsec_per_period_d;
         end = start+nbsec_per_period_d;
 
         /* Initialisation */
